@@ -7,5 +7,14 @@ def build(ctx):
     ctx.task('contracts.relocate:task_relocate')
 
 
+def bounded(ctx):
+    from props import common
+    common.suites(ctx, ['val', 'li'], {'value', 'li'})
+
+
 def explanation(ctx):
-    return 'wip'
+    return ('PROVED over UNBOUNDED integers (no 2**32 enumeration): sign_extend for widths 1..32 equals two\'s-complement sign extension; '
+            '-2**19 <= %hi(v) < 2**19, -2**11 <= %lo(v) < 2**11, ((%hi(v) << 12) + %lo(v) - v) mod 2**32 == 0 on every path of the real '
+            'relocate_hi / relocate_lo; Hi.eval / Lo.eval return that split of the inner expression CURRENT value (evaluated twice with a changed '
+            'inner value: no stale result); u_type accepts every %hi result, i/s/ij_type every %lo result; pair lemma for lui/auipc + '
+            'addi/load/store/jalr. BOUNDED (labels and %position expressions through assemble): val and li suites in both modes.')
